@@ -143,7 +143,7 @@ func (e *env) addrOf(ln net.Listener) int {
 
 // Answer of one fresh connection + GET. Exactly one of the fields says what happened.
 //
-//	"0".."9","a".. : the generation whose handler answered
+//	"0".."9","A".."Z" : the generation whose handler answered (modulo 36)
 //	"r" connection refused   "n" no such file (unix)   "x" reset / EOF / garbage   "o" timeout
 const (
 	ansRefused = "r"
@@ -152,7 +152,14 @@ const (
 	ansTimeout = "o"
 )
 
-func genChar(g int) string { return string("0123456789abcdefghijklmnopqrstuvwyz"[g%35]) }
+// genChar names a generation in answers: one character, digits then upper-case letters,
+// modulo 36 (status letters are lower-case).
+func genChar(g int) string {
+	if g < 0 {
+		return "?"
+	}
+	return string("0123456789ABCDEFGHIJKLMNOPQRSTUVWXYZ"[g%36])
+}
 
 func classifyErr(err error) string {
 	switch {
